@@ -202,10 +202,6 @@ end
 
 def isOutPort (c : ClassD) (w : String) : Bool := match c.port? w with | some p => p.isOut | none => false
 
-def isSkip : Stmt → Bool
-  | .skip => true
-  | _ => false
-
 /-- the assignment context `max(width of the target, width of e)` is at least 32 bits, or `e` is a bare port read -/
 def wideAssign (c : ClassD) (w : String) (e : Expr) : Bool :=
   (match e with | .get _ => true | _ => false) ||
@@ -221,7 +217,7 @@ def okS (c : ClassD) : Stmt → Bool
   | .ife cnd t e => okC c cnd && okS c t && okS c e
   | .mtch subj ch => okV c subj && exact c subj && okS c ch
   | .arm v g body rest => g.isNone && okV c v && exact c v && okS c body && okS c rest
-  | .dflt body => !(isSkip body) && okS c body     -- no `case _` (= `dflt skip`) is emitted as `default:endcase`: not Verilog
+  | .dflt body => okS c body     -- no `case _` = `dflt skip`: emitted as `default:;` (null statement) since /repo b2612d8
 
 def getsE : Expr → List String
   | .get n => [n]
